@@ -153,6 +153,8 @@ def run(ctx):
     c26._progress_flags(ctx)
     c26._bookkeeping(ctx)
     c26._exit_rule(ctx, "R27.3")
+    # confluence of the one applier that writes two slots: which of them another constraint fixed first must not matter
+    c26._position_constraint(ctx, rule="R27.4", value_rule="R27.4")
     _structure(ctx)
     _extension_permutations(ctx)
     ctx.require_count("C27", len(ctx.obligations), 300)
